@@ -123,7 +123,23 @@ def parse_doc(doc, fn=None):
         for names, t in text.items():
             t = ' '.join(t.split())
             for nm in names.split(','):
-                if re.search(r'[Tt]he default value is\b(?! used)', t) or \
+                m1 = re.search(r"The default value is (\S+) if (\w+) is '(\w)'"
+                               r" and (\S+) if \2\s*=\s*'(\w)'\.", t)
+                m2 = re.search(r"The default value is (\S+) if (\w+) is "
+                               r"'(\w)' or '(\w)', and (\S+) otherwise\.", t)
+                zero = bool(re.search(r'If zero, the\s+(default\s+)?default',
+                                      t))
+                if m1 and zero:
+                    # "X if jobz is 'N' and Y if jobz ='V'"
+                    rules[nm] = ('cond', m1.group(2),
+                                 [(m1.group(3), m1.group(1)),
+                                  (m1.group(5), m1.group(4))], None)
+                elif m2 and zero:
+                    # "X if jobu is 'A' or 'S', and 1 otherwise"
+                    rules[nm] = ('cond', m2.group(2),
+                                 [(m2.group(3), m2.group(1)),
+                                  (m2.group(4), m2.group(1))], m2.group(5))
+                elif re.search(r'[Tt]he default value is\b(?! used)', t) or \
                         re.search(r'If \w+ <= 0', t):
                     # a default described in words (conditional defaults)
                     rules[nm] = 'unknown'
@@ -158,6 +174,22 @@ class Eff:
         rule = self.spec['rules'].get(name)
         if rule == 'unknown':
             raise KeyError('default of %s is described in words' % name)
+        if isinstance(rule, tuple) and rule[0] == 'cond':
+            _, flag, cases, other = rule
+            fv = self.raw(flag)
+
+            def parse(d_):
+                try:
+                    return self.expr(ast.parse(d_, mode='eval').body)
+                except SyntaxError:
+                    raise KeyError('default of %s: %s' % (name, d_))
+            dv = parse(other) if other is not None else None
+            for ch_, ex_ in reversed(cases):
+                val_ = parse(ex_)
+                dv = val_ if dv is None else z3.If(fv == ord(ch_), val_, dv)
+            v = z3.If(raw == 0, dv, raw)
+            self.cache[name] = v
+            return v
         if rule is None:
             v = raw
         else:
